@@ -326,8 +326,9 @@ func (m *monitors) checkSignatures() {
 	s := m.s
 	c := m.c03
 	recs := s.reg.All()
-	for ; c.sigSeenIdx() < len(recs); c.bumpSig() {
+	for c.sigSeenIdx() < len(recs) {
 		r := recs[c.sigSeenIdx()]
+		c.bumpSig() // first: a record is judged once, also when judging it ends in a violation
 		if r.Forged || r.ChainID != s.spec.ChainID {
 			continue
 		}
